@@ -390,6 +390,15 @@ def run_prng(case, res):
             elif kind == 'xoroshiro':
                 ready, rand = prngs.prng_xoroshiro128(bw, load, req, seed)
             else:
+                if case.get('noise_seed', 1) % 3 == 0:
+                    # the user first asks for a chunk size the generator does not offer, is
+                    # refused, and asks again in the same design
+                    try:
+                        prngs.csprng_trivium(bw, load, req, seed, (48, 24, 12, 3)[case['noise_seed'] % 4])
+                    except pyrtl.PyrtlError:
+                        res.faults.hit('generator_refused_first')
+                    else:
+                        return Violation('build', 'invalid_bits_per_cycle_accepted', {}, tags)
                 ready, rand = prngs.csprng_trivium(bw, load, req, seed, bpc)
             if len(rand) != bw:
                 return Violation('interface', 'rand_width', {'len': len(rand), 'bw': bw}, tags)
@@ -442,6 +451,11 @@ def run_prng(case, res):
         got_ready = sim.inspect('ready') if ready is not None else None
         was_faulted = model.faulted
         exp_ready, exp_rand, note = model.expect(c, is_pulse)
+        if cur == 0 and not is_pulse and ready is not None and kind == 'xoroshiro' and exp_ready is None:
+            # nothing has been loaded or asked for yet: there is no number ready can announce
+            exp_ready = 0
+            note = 'before_the_first_pulse'
+            res.probes.hit('ready_judged_before_the_first_pulse')
         if is_pulse and ready is not None and kind != 'lfsr':
             # a request (or a seed) is being handed over in this very cycle: ready cannot claim
             # that the number asked for has been produced
